@@ -16,4 +16,6 @@ Definition ops_C14 : list (bytes * (list bytes -> bytes)) :=
     (bs "C14.prop.csr", prop_csr);
     (bs "C14.prop.sj", prop_sj);
     (bs "C14.prop.chain", prop_chain);
-    (bs "C14.prop.vras", prop_vras) ].
+    (bs "C14.prop.vras", prop_vras);
+    (bs "C14.prop.load", prop_load);
+    (bs "C14.prop.bf", prop_bf) ].
